@@ -579,7 +579,9 @@ def u3(rep, src):
             if not ok:
                 rep.violation("U3", key, "the ON expression and (left_schema, right_schema) are not forwarded in order: %s" % show(b, 100), "src/%s:%d" % (RM, a["l"]))
     # ---- expr_has_unique_constraint
-    e = src.one_fn(name="expr_has_unique_constraint", file=RM, self_ty="JoinOperator")
+    from .canon import canon_view as _cv
+
+    e = _cv(src.one_fn(name="expr_has_unique_constraint", file=RM, self_ty="JoinOperator"), src, lets=False, helpers=False)  # early returns (`let f = match expr { F(f) => f, _ => return .. }`) read as the plain match
     ep = [p["pat"]["name"] for p in e.params]
     if len(ep) != 3:
         raise Anchor("expr_has_unique_constraint: expected (expr, left_schema, right_schema)")
@@ -895,7 +897,7 @@ def u0(rep, src):
         "inventory: in relation/mod.rs (non-test) a Field is given a constraint (Field::new with a third argument other than None, `.with_constraint(..)`, Field::from of a triple) only in "
         + ", ".join(sorted(EXPECTED_SITES))
         + " — the sites decided by U1–U4",
-        floor=7,
+        floor=5,
         necessary="a further site (e.g. Set::schema copying the left constraint through a UNION) propagates uniqueness where nothing proves it",
     )
     for f in src.fns:
@@ -911,8 +913,14 @@ def u0(rep, src):
                 hit = show(c, 70)
             if hit is None:
                 continue
-            rep.instance("U0", "%s@%d" % (f.qual, c["l"]), {"in": f.qual, "constraint": hit})
-            if f.qual not in EXPECTED_SITES:
+            site = f.qual
+            if site not in EXPECTED_SITES and (f.node.get("vis") or "") == "":
+                # a private helper belongs to the reviewed site(s) it is called from (an extracted piece of that site)
+                callers = {g.qual for g in src.fns if not g.test and g.body and g.file == RM and g is not f and any((x["k"] == "call" and (path_of(x["f"]) or "").split("::")[-1] == f.name) or (x["k"] == "mcall" and x["m"] == f.name) for x in walk(g.body))}
+                if callers and callers <= set(EXPECTED_SITES):
+                    site = sorted(callers)[0]
+            rep.instance("U0", "%s@%d" % (f.qual, c["l"]), {"in": f.qual, "constraint": hit, "counted_with": site})
+            if site not in EXPECTED_SITES:
                 rep.violation("U0", f.qual, "%s attaches a constraint to a derived field (%s): not one of the reviewed sites" % (f.qual, hit), "src/%s:%d" % (RM, c["l"]))
 
 
